@@ -4,10 +4,10 @@ from .. import core, hist, world as W
 from .c01 import handles_ok, fix_disagreements
 
 MODULES = ['DsdVerif.Props.C04']
-GEN_FILES = []
+GEN_FILES = ['PyExprs']
 THEOREM_NAMES = ['domwf_init', 'domwf_request', 'domwf_drop', 'domwf_invert', 'complement_lengths_agree', 'conflict_raises',
                  'invert_involutive', 'dtype_rule', 'dtype_default_lengths', 'dtype_length_contradiction']
-THEOREMS = ['Dsd.C04.' + t for t in THEOREM_NAMES]
+THEOREMS = ['Dsd.C04.' + t for t in THEOREM_NAMES] + ['Dsd.PyExprs.py_dtype_eq_model']
 ASSUMPTIONS = [
     'DomainS.identifiers is hand-modelled by its net effect (Model/Objects.lean: domainRequest); the temporary complement objects it '
     'creates and drops are not modelled; lengths are positive integers (length 0 is falsy in the guard and outside the reading)',
@@ -20,7 +20,7 @@ MANIFEST = {
             'dtype_default_lengths, dtype_length_contradiction; for every name, length, dtype and class setting. Tied to DomainS by '
             'exhaustive histories over names {a, a*, auto}, lengths, dtypes and three class-setting variants plus random histories; '
             'the invariant is also checked directly on the real registry after every step.',
-    'note': 'Transient complement domains inside identifiers() are not modelled; positive lengths only; trusted base as in DESIGN.md 3.',
+    'note': 'DomainS.dtype is translated from the source on every run and proved equal to the model\'s dtypeOf (py_dtype_eq_model). Transient complement domains inside identifiers() are not modelled; positive lengths only; trusted base as in DESIGN.md 3.',
     'technique': 'Lean 4 invariant proof over histories of the domain registry; correspondence check on histories',
 }
 
